@@ -126,6 +126,41 @@ def run(ctx: Ctx):
             add(dict(ev="Targets", prefix="autoware", classif=0, merge=1 if merge else 0, names=[b(x) for x in names],
                      resolved=[x.value for x in cfg.target_labels], each=[conv_label(conv, x) for x in names], all_members=[]),
                 ctx=("PerceptionEvaluationConfig", merge), targets=names)
+        # one configuration per (label family, task, merging) built one after the other in this process: each must resolve names with ITS
+        # family / task / merge option, whatever configurations were built before
+        from perception_eval.common.evaluation_task import EvaluationTask as _ET
+
+        seq = [("traffic_light", "detection2d", False), ("traffic_light", "classification2d", False), ("autoware", "detection2d", True), ("traffic_light", "detection2d", True),
+               ("autoware", "classification2d", False), ("traffic_light", "classification2d", True), ("autoware", "detection", True), ("autoware", "tracking", False),
+               ("traffic_light", "tracking2d", False), ("autoware", "detection2d", False)]
+        for k_, (prefix, task, merge) in enumerate(seq):
+            names = ["car", "Bus", "TRUCK", "motorbike", "pedestrian.adult", "animal"] if prefix == "autoware" else ["green", "RED", "Yellow", "traffic_light", "unknown", "red_left"]
+            d = {"evaluation_task": task, "target_labels": names, "label_prefix": prefix, "merge_similar_labels": merge, "center_distance_thresholds": [1.0], "iou_2d_thresholds": [0.5]}
+            is2d = task.endswith("2d")
+            if not is2d:
+                d.update({"max_x_position": 100.0, "max_y_position": 100.0, "min_point_numbers": [0] * len(names), "plane_distance_thresholds": [2.0], "iou_3d_thresholds": [0.5]})
+            try:
+                cfg = PerceptionEvaluationConfig([], "cam_front" if is2d else "base_link", os.path.join(tmp, "s%d" % k_), d)
+            except Exception as ex:
+                add(dict(ev="Targets", prefix=prefix, classif=1 if task == "classification2d" else 0, merge=1 if merge else 0, names=[b(x) for x in names], resolved=["raised"],
+                         each=["raised"] * len(names), all_members=[]), ctx=("PerceptionEvaluationConfig", prefix, task, merge, repr(ex)[:120]), targets=names)
+                continue
+            conv = cfg.label_converter
+            add(dict(ev="Targets", prefix=prefix, classif=1 if task == "classification2d" else 0, merge=1 if merge else 0, names=[b(x) for x in names],
+                     resolved=[x.value if isinstance(x, conv.label_type) else "other-family:%s" % x.value for x in cfg.target_labels], each=[conv_label(conv, x) for x in names],
+                     all_members=[]), ctx=("PerceptionEvaluationConfig", prefix, task, merge), targets=names)
+            # ... and the configuration's own converter is the converter of its family / task / merge option
+            fresh = LabelConverter(_ET.from_value(task), merge, prefix)
+            reg_ = [i.name for i in fresh.label_infos]
+            for n_ in names + [m.value for m in fresh.label_type][:6]:
+                try:
+                    via_ = conv.convert_name(n_)
+                    via_ = via_.value if isinstance(via_, fresh.label_type) else "other-family:%s" % via_.value
+                except Exception:
+                    via_ = "raised"
+                add(dict(ev="Convert", prefix=prefix, classif=1 if task == "classification2d" else 0, merge=1 if merge else 0, name=b(n_), registered=1 if n_.lower() in reg_ else 0,
+                         label=conv_label(conv, n_), label_upper=conv_label(conv, n_.upper()), label_lower=conv_label(conv, n_.lower()), label_title=conv_label(conv, title(n_)),
+                         via_name=via_), ctx=("PerceptionEvaluationConfig.label_converter", prefix, task, merge), name=n_)
     finally:
         shutil.rmtree(tmp, ignore_errors=True)
     make("Trace_Labels_gen", "Trace_Labels", init="TraceInit", next="TraceNext", postcondition="Consumed")
